@@ -24,7 +24,7 @@ KNOWN_HUGE = "declared-size-over-2^62:owner:no-maximum"
 def corpus(rng, quick):
     sizes = [0, 1, 2, 3, 8, 47, 48, 56, 57, 58, 100, 113, 114, 115, 171, 300, 1000]
     if not quick:
-        sizes += [4096, 32768, 65531, 65532, 70000]
+        sizes += [4096, 32768, 65532, 70000]
     out = []
     for n in sizes:
         out.append(bytes(n))
@@ -116,7 +116,7 @@ def gen_dec_cases(ctx):
         n = len(d)
         # the untouched text through several output kinds (accepting and rejecting ones)
         add(t, "valid:" + name, nk=2, size_hint=n)
-        for _ in range(nmut):
+        for _ in range(nmut if len(d) <= 1000 else 3):      # the extracted model is slow on long Huffman streams
             m = rng.randrange(16)
             if m == 0:      # truncate anywhere
                 k = rng.choice([0, 1, 2, 3, 11, 12, 13, 76, 77, 78, 79, len(t) - 1, len(t) - 2, len(t) - 3, rng.randrange(len(t) + 1)])
@@ -200,6 +200,9 @@ def gen_dec_cases(ctx):
     for c in range(256):
         t = base_t[:14] + bytes([c]) + base_t[15:]
         cases.append(dict(line=dec_line((0, 1, 1, 0), 0, t), text=t, kind=(0, 1, 1, 0), maxsz=0, tag="bytevalue"))
+    # a declared size the machine cannot provide, owner output, no maximum: libsc aborts in its allocator (documented exception)
+    t = text_of(0x68 << 32, zlib.compress(b"", 9), 61)
+    cases.append(dict(line=dec_line((0, 1, 4, 0), 0, t), text=t, kind=(0, 1, 4, 0), maxsz=0, tag="size-unallocatable"))
     # the recorded defect: a declared size above 2^62, owner output, no maximum (known finding)
     for ns in ((1 << 63) + 8, (1 << 64) - 1):
         t = text_of(ns, zlib.compress(b"x" * 1000), 61)
@@ -296,7 +299,7 @@ def gen_puff_cases(ctx):
         if len(s) <= (36 if ctx.quick else 120):
             pos = range(8 * len(s))
         else:
-            pos = sorted(set(rng.randrange(8 * len(s)) for _ in range(24 if ctx.quick else 200)))
+            pos = sorted(set(rng.randrange(8 * len(s)) for _ in range(24 if (ctx.quick or len(d) > 1000) else 200)))
         for p in pos:
             b = bytearray(s); b[p >> 3] ^= 1 << (p & 7)
             add(rng.choice([0, 0, 0, 1]), len(d) + rng.choice([0, 0, 3, 300]), bytes(b), len(b), "bitflip")
@@ -396,7 +399,8 @@ def run(ctx):
         for v in ("z", "nz"):
             o = outs[v][i] or "<missing>"
             if o == "CRASH" and hdr is not None and (1 << 28) <= hdr[0] <= BIG and c["kind"][1] == 1 and (c["maxsz"] == 0 or c["maxsz"] >= hdr[0]) \
-                    and ("failed to allocate" in incident_text[v].get(i, "") or "Allocation" in incident_text[v].get(i, "")):
+                    and "ERROR: AddressSanitizer" not in incident_text[v].get(i, "") and "runtime error" not in incident_text[v].get(i, "") \
+                    and ("failed to allocate" in incident_text[v].get(i, "") or "Allocation" in incident_text[v].get(i, "") or "exit=-6" in incident_text[v].get(i, "")):
                 # the allocation of the declared size failed and libsc aborted: the documented exception ("cannot crash unless out of memory")
                 o = outs[v][i] = "OUT-OF-MEMORY"
                 stats["out_of_memory"] = stats.get("out_of_memory", 0) + 1
@@ -430,6 +434,8 @@ def run(ctx):
                 ctx.tie_broken("sc_io_decode vs model (zlib build)", "case %s: libsc %s, model %s" % (c["line"][:160], oz[:120], mo[:120]))
         if oz.startswith("ok") != mo.startswith("ok"):
             stats["accept_differs"] += 1          # zlib's inflate and sc_puff may differ on malformed streams: logged, not judged
+            k2 = "accept_differs:%s:%s" % (c["tag"], "zlib-only" if oz.startswith("ok") else "puff-only")
+            stats[k2] = stats.get(k2, 0) + 1
     # ---- decode_info
     for k, t in enumerate(itexts):
         i = nd + k
